@@ -42,6 +42,59 @@ TEXT = {
         'note': NOTE_COMMON + ' Mode 0 with supplied bytes: not proved; real code compared with Spec.stepKF by correspondence only.',
         'technique': 'Lean 4 proof: regenerated processInterrupt/Step = abstract controller (simp), induction for pending requests; differential correspondence incl. known-finding classification',
     },
+    'C05': {
+        'text': 'Machine-checked: the ordered bus log (every Memory.Get/Set and IO.In/Out with address/port and value) is a field of the model state, so the C01 equality '
+                'forces the real code\'s traffic to be the reference\'s for EVERY state and device; theorems over the reference fix what that traffic is: instruction bytes read '
+                'sequentially from PC once each, untaken JP/CALL/JR/RET touch nothing else, read-modify-write = one read then one write at the same address, 16-bit accesses at '
+                'addr and addr+1 mod 65536, port = C (IN r,(C), OUT (C),r, block I/O) or n, device value = loaded value, and NO port access by any other instruction (exec_no_port, all instructions).',
+        'note': NOTE_COMMON,
+        'technique': 'Lean 4 proof: log is part of the state equality of C01; spec-level trace theorems (simp); frame theorem over all instructions; differential correspondence compares complete ordered logs',
+    },
+    'C08': {
+        'text': 'Machine-checked over the loop body translated from cpu.go Run on every run: one pass = exactly one Step then the stop rule (breakpoint before HALT); by induction over '
+                'the number of Steps, Run returns exactly after the FIRST Step whose post-state meets the stop rule, with ErrBreakPoint when PC is a breakpoint (also when HALT holds too) and nil '
+                'on HALT; never earlier; at least one Step; HALT cleared on entry; re-Run on a halted CPU re-executes the HALT and changes nothing but R. '
+                'Partial: interrupt requests raised from I/O callbacks during Run are outside the model.',
+        'note': NOTE_COMMON + ' Run\'s for-loop is modelled as a fuelled recursion over the translated body; the goroutine prologue is covered by C13.',
+        'technique': 'Lean 4 proof: induction over Steps on the translated loop body; differential correspondence real CPU.Run vs translated loop vs reference on generated programs/breakpoint sets',
+    },
+    'C12': {
+        'text': 'Machine-checked totality: Gen.Step (regenerated; slice indexing, nil dereference and nil handlers are translated as checked operations that yield panic) returns normally for EVERY state with '
+                'user memory and every request outside mode-0-with-data (any type, any IM, empty/long data, any PC/SP, no IO device); the mode-0 overlay accessors never index outside the supplied bytes for every '
+                'length/start/address (induction over nested overlays); unsupported opcodes are consumed with one warning. No recursion/loops inside a Step (translator refuses them). '
+                'Partial: decode arms running over the overlay memory are covered by correspondence (malformed stream), not proof; Run returning on halt: C08.',
+        'note': NOTE_COMMON,
+        'technique': 'Lean 4 proof: totality theorems via commutation/frame lemmas over all instructions; differential correspondence on malformed states with panic detection',
+    },
+    'C13': {
+        'text': 'Machine-checked over the translated Run: the cancellation flag is consulted before every Step and nowhere else, so a cancelled Run returns ctx.Err() with the CPU in the state after a whole number of Steps '
+                '(C13_boundary, induction); the watcher/loop hand-off protocol (action lists extracted from the source on every run) is explored exhaustively as a two-thread transition system whose reachable set is closed: '
+                'ctxErr is never read without an ordering store/load pair, and the watcher can always terminate after Run returns (deferred cancel). '
+                'Partial: bounded delay, goroutine accounting and race-detector facts live in the Go runtime and are not modelled.',
+        'note': NOTE_COMMON + ' Go memory model assumed for atomic store/load ordering.',
+        'technique': 'Lean 4 proof: induction on the translated loop + kernel-decided closed-state-set exploration of the extracted cancellation protocol',
+    },
+    'C14': {
+        'text': 'Machine-checked: for EVERY state (all 256 R values, any instruction bytes) a Step without pending request leaves I unchanged and advances the low seven bits of R by exactly the number of opcode fetches '
+                '(1 unprefixed incl. every halted Step and every repetition of block instructions, 2 for CB/ED/DD/FD, 3 for DDCB/FDCB — this project\'s count), bit 7 kept, wrap 0x7F→0x00; only LD I,A / LD R,A write I/R (all eight bits); '
+                'LD A,I / LD A,R deliver the current value with S/Z/H/N/PV=IFF2/C-preserved flags.',
+        'note': NOTE_COMMON,
+        'technique': 'Lean 4 proof: C01 equality + frame theorem (exec leaves IR alone for all instructions except the four LDs) + decide over decode tables; differential correspondence',
+    },
+    'C17': {
+        'text': 'Machine-checked by kernel evaluation over the WHOLE finite data regenerated on every run: following each shipped program image (cmd/zexdoc/zexdoc.cim, zexall.cim) from its entry jump through its own '
+                'pointer table yields 67 records that equal the Go tables zex.DocCases / zex.AllCases entry by entry, byte for byte (flag mask, 3x20-byte state vectors, CRC, description modulo padding dots), '
+                'no case missing or reordered; both also equal canonical records pinned in /verif, so a consistent edit of image and table is caught too.',
+        'note': 'Trusted: Lean kernel (decide +kernel, no native_decide); go2lean\'s data extraction (go/types constant values; raw file bytes); tools/mkzexcanon.py for the pinned canon.',
+        'technique': 'Lean 4 proof: decide +kernel over the complete regenerated tables and images (finite quantifier, fully enumerated in the kernel)',
+    },
+    'C15': {
+        'text': 'Machine-checked theorems over a hand-written model of memio.go: for every slice length 0..65536 and EVERY history of Set/Put (Out) operations, Get (In) returns the value last written to that address or 0, '
+                '0 beyond the slice where writes are ignored (induction over histories); MapMemory likewise with default 0xC7, Put wrapping past 0xFFFF for blocks up to 64 KiB, Clear; Clone returns a fresh heap object so writes through either '
+                'handle never show through the other; Equal is true exactly for identical contents and false for non-MapMemory arguments. The model is tied to the real types by differential operation sequences on every run.',
+        'note': 'Trusted: Lean kernel; the hand-written model Z80/Spec/MemIO.lean (validated against memio.go by the correspondence on every run, not derived from it); Go slice/map reference semantics as modelled by a heap of objects.',
+        'technique': 'Lean 4 proof: induction over operation histories on a hand-written heap model; differential operation-sequence correspondence real types vs model',
+    },
     'C16': {
         'text': 'Machine-checked symbolic bit-vector theorems over the definitions regenerated from flag.go/z80.go: GetFlag = any-named-bit, '
                 'SetFlag = F|m, ResetFlag = F&~m for all masks and all F, frame (A and all other fields unchanged), constants = Z80 bit positions, '
